@@ -40,7 +40,7 @@ PROPS = {
         technique="contract-based deductive verification of the lexer context + bounded run-time contract on DDLParser.run (generated schemas)",
     ),
     "C03": dict(
-        frames=["lexer-reset-complete", "tables-append-only"], bounded=True, level="other",
+        contracts=["c03"], frames=["lexer-reset-complete", "tables-append-only"], bounded=True, level="other",
         explanation="deductive (frames): every lexer flag written while lexing is reset before each statement parse, the reset precedes every parse, results accumulate by append only; "
                     "BOUNDED deciding step for the textual part: ordered pairs / triples of statement units and unsupported statements inserted at every position vs concatenation of single-statement results",
         level_text="independence of statements: per-statement reset and append-only accumulation are proved as frame obligations; line-based statement assembly (regexes) is decided by a bounded concatenation contract",
@@ -109,7 +109,7 @@ PROPS.update({
         technique=BTECH,
     ),
     "C05": dict(
-        contracts=["lexer", "c05"], bounded=True, level="other",
+        contracts=["lexer", "c05", "c03"], frames=["token-text-only-through-upper"], bounded=True, level="other",
         explanation="deductive: relational lexer contracts (a keyword in any letter case is typed and upper-cased like its upper-case spelling, an ID keeps its text); "
                     "BOUNDED deciding step for layout: re-renderings (case pattern per keyword x separator per gap x line-break set, CRLF) of generated statements and of the regression corpus",
         level_text="layout invariance is decided by a bounded metamorphic contract; the case-insensitive keyword typing is proved for the lexer contexts under contract",
@@ -195,7 +195,7 @@ PROPS.update({
     ),
 })
 PROPS["C01"].update(
-    contracts=["lexer", "c01", "c07", "c09"],
+    contracts=["lexer", "c01", "c07", "c09", "c03", "c02"],
     explanation="deductive: every word in a column-name position is typed ID and kept verbatim (lexer contract); column / defcolumn productions: each option sets exactly its own attribute from an arbitrary column state "
                 "(any option order), sizes and defaults exact; the table production appends each finished column at the end of an opaque prefix (any number of columns); "
                 "BOUNDED deciding step for alternative selection and text pre-processing: generated tables compared with the abstract schema",
